@@ -263,6 +263,46 @@ func predJSONData(c Case) (r Result) {
 	if n.T == "Function" {
 		r.class("topfn." + n.S)
 	}
+	// feedback: a result is JSON data, so it is a document; searching it with the same
+	// compiled expression (whose previous results are still alive) must again give JSON
+	// data and must leave the earlier results as they were
+	if comp, err, pan := libCompile(expr); err == nil && pan == nil {
+		cur := ref.DeepCopy(doc)
+		var kept []interface{}
+		var shown []string
+		for round := 0; round < 3; round++ {
+			var v interface{}
+			var serr error
+			if p := safely(func() { v, serr = comp.Search(cur) }); p != nil {
+				r.Violation = fmt.Sprintf("Search panicked when given its own result as the document (round %d)", round+1)
+				r.Got = fmt.Sprint(p)
+				return
+			}
+			if serr != nil {
+				break
+			}
+			if !isJSONData(v) {
+				r.Violation = fmt.Sprintf("searching an earlier result with the same compiled expression returned a value that is not JSON data (round %d)", round+1)
+				r.Got = show(v)
+				return
+			}
+			if _, err := json.Marshal(v); err != nil {
+				r.Violation = fmt.Sprintf("the result of searching an earlier result cannot be serialised as JSON (round %d): %s", round+1, err.Error())
+				r.Got = show(v)
+				return
+			}
+			for i, k := range kept {
+				if now := show(k); now != shown[i] {
+					r.class("earlier-result-changed-later") // C06/C13's business; counted only
+				}
+			}
+			kept, shown = append(kept, v), append(shown, show(v))
+			cur = v
+			if round > 0 {
+				r.class("feedback-rounds")
+			}
+		}
+	}
 	return
 }
 
@@ -293,7 +333,15 @@ func TestC16(t *testing.T) {
 				}
 			}
 			expr = name + "(" + strings.Join(args, ", ") + ")"
-			switch rapid.IntRange(0, 4).Draw(t, "edgeCtx") {
+			switch uni(t, 9, "edgeCtx") {
+			case 5:
+				expr = expr + " | merge(@, {prev: @})"
+			case 6:
+				expr = expr + " | not_null(@, [@]) | [@, to_array(@)]"
+			case 7:
+				expr = expr + " | [merge({a: @}, {b: @}), @] | merge(@[0], {prev: @[0], first: @[1]})"
+			case 8:
+				expr = "[" + expr + ", " + expr + "] | [@[0], to_array(@[1]), reverse(@)]"
 			case 0:
 				expr = "[" + expr + ", `[]`[*], `{}`.*]"
 			case 1:
